@@ -347,9 +347,11 @@ def r1b_reset_rebuilds(ctx, sym):
               "it is calling an integer")
 
 
-def r2_clear_complete(ctx, sym):
-    ctx.rule('R2', "Report.clear() resets every attribute Report.__init__ creates (re-assigned or .clear()ed, "
-                   "transitively through self-method calls), except the documented class_hooks")
+def r2_clear_complete(ctx, sym, rule='R2', only=None):
+    ctx.rule(rule, "Report.__init__ executed abstractly gives the pristine state; every attribute is dirtied, "
+                   "Report.clear() is executed abstractly, and the state must read as pristine again (except the "
+                   "documented class_hooks); where the interpreter cannot run them, every attribute __init__ creates "
+                   "must be re-assigned or .clear()ed by clear(), transitively through self-method calls")
     mod = ctx.repo.module(REPORT)
     ci = sym.find_class(REPORT, 'Report')
     init = ci.methods['__init__']
@@ -359,7 +361,7 @@ def r2_clear_complete(ctx, sym):
             for t in n.targets:
                 if is_self_attr(t):
                     created.append((t.attr, n))
-    ctx.floor('R2', 'attributes created by Report.__init__', len(created), 15)
+    ctx.floor(rule, 'attributes created by Report.__init__', len(created), 15)
     reach = reachable_self_methods(sym, mod, 'Report', 'clear')
     reset = set()
     for name in reach:
@@ -377,18 +379,20 @@ def r2_clear_complete(ctx, sym):
     clear = ci.methods['clear']
     ctx.analysed_function(mod, clear)
     documented = {'class_hooks'}
-    for attr, node in created:
-        if attr in documented:
-            ctx.ok('R2', 'Report.' + attr, nontrivial=False)
-            continue
-        ctx.check(attr in reset, 'R2', 'Report.clear:' + attr, mod, clear,
-                  "Report.__init__ creates self.%s but Report.clear() never resets it" % attr,
-                  {'pools': "script 1 calls set_pools(['A', 'B']); the next submission graded in the same process "
-                            "still has pools set and gets a random pool chosen at resolve time",
-                   'chosen_pool': "after a grading with pools, report.chosen_pool keeps its value for the next "
-                                  "submission, so leftover pool overrides are applied to its feedback"}.get(
-                      attr, "a value stored in report.%s by one grading is seen by the next" % attr),
-                  construct='def clear(self): ... (no self.%s)' % attr)
+
+    def effect_set_rule():
+        for attr, node in created:
+            if attr in documented or (only is not None and attr not in only):
+                ctx.ok(rule, 'Report.' + attr, nontrivial=False)
+                continue
+            ctx.check(attr in reset, rule, 'Report.clear:' + attr, mod, clear,
+                      "Report.__init__ creates self.%s but Report.clear() never resets it" % attr,
+                      {'pools': "script 1 calls set_pools(['A', 'B']); the next submission graded in the same process "
+                                "still has pools set and gets a random pool chosen at resolve time",
+                       'chosen_pool': "after a grading with pools, report.chosen_pool keeps its value for the next "
+                                      "submission, so leftover pool overrides are applied to its feedback"}.get(
+                          attr, "a value stored in report.%s by one grading is seen by the next" % attr),
+                      construct='def clear(self): ... (no self.%s)' % attr)
     # the same, behaviourally: __init__ executed abstractly gives the pristine state; every attribute is then dirtied,
     # clear() is executed abstractly, and the state must read as pristine again
     from .. import symexec
@@ -425,14 +429,15 @@ def r2_clear_complete(ctx, sym):
         symexec.method(me, 'clear_overridden_feedback', lambda: me.attrs.__setitem__('overridden_feedbacks', set()))
         fresh_fd().call_function(clear, [], bound_self=me)
         for k, w in sorted(want.items()):
-            if k in documented:
+            if k in documented or (only is not None and k not in only):
                 continue
             got = shape(me.attrs.get(k))
-            ctx.check(got == w, 'R2', 'Report.clear:restores:' + k, mod, clear,
+            ctx.check(got == w, rule, 'Report.clear:restores:' + k, mod, clear,
                       "after clear() report.%s is %r, a new Report has %r" % (k, got, w),
                       "a value stored in report.%s by one grading is seen by the next" % k)
     except (Raised, Inconclusive) as e:
-        ctx.info("Report.__init__/clear outside the decidable fragment (%s): the effect-set rule above stands alone" % e)
+        ctx.info("Report.__init__/clear outside the decidable fragment (%s): decided by the effect-set rule" % e)
+        effect_set_rule()
 
 
 def r3_lazy_tool_reset(ctx, sym):
@@ -547,10 +552,15 @@ def r3_lazy_tool_reset(ctx, sym):
                           "fresh object", "objects cached by the tool for the previous submission stay reachable")
     ctx.floor('R3', 'registered tools', n, 5)
     clear = mod.func('Report.clear')
-    me = symexec.self_obj(mod, 'Report', _tool_data={'tifa': {'stale': True}}, __open__=True)
+    # (every container Report.__init__ creates exists on the model, so a loop over them is interpreted as well)
+    base_attrs = {k: (type(v)() if isinstance(v, (list, dict, set)) else v)
+                  for k, v in symexec.init_literals(mod, 'Report').items()}
+    base_attrs['_tool_data'] = {'tifa': {'stale': True}}
+    me = symexec.self_obj(mod, 'Report', __open__=True, **base_attrs)
     me.attrs['__unknown_method__'] = lambda name, *a, **k: None
     try:
-        symexec.new_fd(sym, mod).call_function(clear, [], bound_self=me)
+        symexec.new_fd(sym, mod, calls={'Formatter': lambda *a, **k: Obj('Formatter()')}).call_function(
+            clear, [], bound_self=me)
         emptied = not me.attrs.get('_tool_data')
     except (Raised, Inconclusive):
         emptied = any(norm(c.func) == 'self._tool_data.clear' for c in calls(clear))
